@@ -4,6 +4,8 @@
      src/c/cdlopen.c      ffi_dlclose                        (statements under `if (libhandle != NULL)`)
      src/c/cdlopen.c      cdlopen_fetch, and dl_load_function / dl_read_variable / dl_write_variable in
                           _cffi_backend.c: does the closed test (returning NULL) PRECEDE the dlsym() call?
+     the conditions guarding the two close blocks: do they ALSO require the auto-close flag (so that a lib made
+     from a caller-supplied `void *` handle would never get its handle reset)?
    the committed copy is Gen.v.snapshot.  Do not edit. *)
 From Coq Require Import List.
 Import ListNotations.
@@ -11,6 +13,8 @@ From Cffi Require Import C37.Steps.
 
 Definition inline_close : list cstep := [ CallCloseLib; ClearDict ].
 Definition backend_close_lib : list cstep := [ DlClose; SetHandleNull ].
-Definition ool_close : list cstep := [ SetHandleNull; ClearDict; DlClose ].
+Definition ool_close : list cstep := [ SetHandleNull; DlClose ].
 Definition ool_fetch_checks_first : bool := true.
 Definition inline_checks_first : bool := true.
+Definition backend_close_guard_auto : bool := false.
+Definition ool_close_guard_auto : bool := false.
